@@ -276,6 +276,15 @@ func ZZReplies() {
 		rt.PoolHavoc(true)
 	}
 	npipe := rt.Param("pipeline", 2)
+	if rt.Param("symkey", 0) == 1 {
+		// the first client key is one arbitrary printable byte (the other keys are longer, so it
+		// differs from them whatever it is): key bytes reach the reply writers
+		kb := rt.U8("key0.byte")
+		rt.Assume(kb > 0x20 && kb < 0x7f)
+		saved := model.Keys[0]
+		model.Keys[0] = []byte{kb}
+		defer func() { model.Keys[0] = saved }()
+	}
 	var cfg int
 	if p := rt.Param("orca", -1); p >= 0 {
 		cfg = p
